@@ -11,7 +11,7 @@ NOTE = ('Trusted base: clang 14 Sema + CFG builder as driven by engine/tbxfacts.
 CLAIMS = {
  'C01': ('A1 lockset/thread-role race freedom of the cross-thread queue and wake-up token, A3 swap+acknowledge atomicity, A4 no-lost-wake-up '
          'shape of producers and loop start, drain-on-exit reachability in both back-ends and destructors, copy-before-invoke / one-pop-per-invoke, '
-         'FIFO container discipline and cancel routing by id parity, task invocation only on loop-role functions', '§4 C01',
+         'FIFO container discipline and cancel routing by id parity, task invocation only on loop-role functions, role closure over every loop-written field with run() handing over to runNext() only behind the role test, running batch always finished (must-fact), wake-up token reset with the channel', '§4 C01, §10.3 D25',
          'lockset + CFG path rules over clang AST/CFG'),
  'C03': ('A7 snapshot-dispatch re-validation in both back-ends, record re-resolution per ready descriptor, A8 no throwing look-up in the dispatch '
          'loops, no iterate-while-mutate over fd_events, one-shot-before-callback, epoll/select sibling agreement, interest-set table (counter stepped under the matching events_ bit, epoll mask / select sets requested iff counter > 0, kernel-bit to tbox-bit translation incl. HUP->read, epoll_ctl ADD/MOD/DEL by old/new mask)', '§4 C03, §10.7',
@@ -21,9 +21,9 @@ CLAIMS = {
          'callee allow-list + pairing/path rules over clang AST/CFG'),
  'C05': ('A1 lockset/thread-role race freedom incl. cond-var flag discipline (static form of "cleanup terminates"), A3 take→mark-running atomicity, '
          'completion protocol (body on worker role, main_cb only via runInLoop after the body), cancel/cleanup shapes, join protocol, priority/FIFO shape, '
-         'worker bound, no lock held across task bodies/join', '§4 C05', 'lockset + atomic-region + CFG path rules over clang AST/CFG'),
+         'worker bound, no lock held across task bodies/join, main_cb only into Loop::runInLoop and no loop-thread-only entry in the worker role, retire decision atomic with leaving threads_cabinet', '§4 C05, §10.3 D24', 'lockset + atomic-region + CFG path rules over clang AST/CFG'),
  'C09': ('A1 lock discipline of logging globals and sink level tables, dispatch only under the global lock (call-graph who-may-call), atomic two-part '
-         'append, filter-before-output, truncation marking agreement over sinks, back-end re-framing guards, roll-over/disable ordering, no re-logging from sinks', '§4 C09',
+         'append, filter-before-output, truncation marking agreement over sinks, back-end re-framing guards, roll-over/disable ordering, no re-logging from sinks, record completeness (every formatter prints every field), level clamped into the level tables (interval abstract interpretation)', '§4 C09',
          'lockset + who-may-call + CFG path rules over clang AST/CFG'),
  'C10': ('A1 pairwise common-lock race freedom with producer/backend/owner roles and thread phases, whole-append critical section incl. every external '
          'appendLockless caller, one critical section for a whole datum, FIFO hand-over and reset-after-callback, back-pressure guards, cleanup/quit-path flush order, acyclic lock order and no wait-for cycle (no role blocks on a mutex another role holds while waiting for it), chunk-copy arithmetic of the pipe buffer by linear forms per reaching definition (inside block and datum, min(request, free), size_ advanced by what was copied)', '§4 C10, §10.7',
@@ -35,7 +35,7 @@ CLAIMS = {
 CLAIMS.update({
  'C02': ('A13 heap-protocol typestate of timer_min_heap_ over every function touching it (HEAP at exits/user callbacks/front reads, one comparator ordering by '
          'deadline), not-before-deadline guard, fresh-interval / re-arm-by-interval data dependence, callback copied before recycling and no use after it, '
-         'synchronous token free + deferred record free, one-shot ordering, TimerEventImpl enabled<=>registered', '§4 C02',
+         'synchronous token free + deferred record free, one-shot ordering, TimerEventImpl enabled<=>registered, deadline base is a pure fresh clock reading, synchronous disable() before any deferred TimerEvent delete', '§4 C02',
          'typestate dataflow (heap protocol) + CFG path rules over clang AST/CFG'),
  'C06': ('write-arming invariant (running and queued => write event armed) decided at every state-changing site, remainder arithmetic shape of send(), '
          'completion only when drained, receive-side commit/spill shape, destruction only through deferred tasks at the in-callback sites; plus the util::Buffer window arithmetic (C07 rules run as C06.B1-B4, the send/receive queues are Buffers)', '§4 C06, §10.6',
